@@ -415,8 +415,9 @@ func (e *Env) tr(x ast.Expr) Term {
 		if b.T != nil {
 			if mt, ok := b.T.Underlying().(*types.Map); ok {
 				ks, vs := u.ss.sortOf(mt.Key()), u.ss.sortOf(mt.Elem())
-				vals, _ := u.mheap(e.s, ks, vs)
-				return Term{S: fmt.Sprintf("(select (select %s %s) %s)", vals.S, b.S, i.S), Sort: vs, T: mt.Elem()}
+				vals, pres := u.mheap(e.s, ks, vs)
+				present := fmt.Sprintf("(and (not (= %s 0)) (select (select %s %s) %s))", b.S, pres.S, b.S, i.S)
+				return Term{S: fmt.Sprintf("(ite %s (select (select %s %s) %s) %s)", present, vals.S, b.S, i.S, u.ss.zero(mt.Elem()).S), Sort: vs, T: mt.Elem()}
 			}
 		}
 		fail("cannot index %s", b.Sort)
